@@ -94,7 +94,7 @@ from ._cim_constants import CIM_ERR_NOT_FOUND, CIM_ERR_FAILED, \
     CIM_ERR_ALREADY_EXISTS, CIM_ERR_INVALID_NAMESPACE, \
     CIM_ERR_INVALID_SUPERCLASS, CIM_ERR_INVALID_PARAMETER, \
     CIM_ERR_NOT_SUPPORTED
-from ._exceptions import Error, CIMError
+from ._exceptions import Error, CIMError, ModelError
 from ._utils import _format, _ensure_unicode
 from ._warnings import ToleratedSchemaIssueWarning
 
@@ -1884,6 +1884,15 @@ def p_instanceDeclaration(p):
 
             if embedded_object_type:
                 if pval:
+                    pvals = pval if isinstance(pval, list) else [pval]
+                    if not all(isinstance(pv, str) for pv in pvals):
+                        raise MOFParseError(
+                            msg=_format(
+                                "Property {0!A} with value {1!A} is an "
+                                "embedded {2} property and requires string "
+                                "value(s) containing the MOF of instances",
+                                cprop.name, pval, embedded_object_type),
+                            parser_token=p)
                     objs = p.parser.mofcomp.compile_embedded_value(pval, ns)
                     for obj in objs:
                         if not isinstance(inst, allowed_types):
@@ -2863,6 +2872,43 @@ class MOFCompiler:
         if self._log_func:
             self._log_func(_ensure_unicode(msg))
 
+    def files_in_progress(self):
+        """
+        Return the absolute path names of the MOF files that are currently
+        being compiled (i.e. the chain of include files).
+        """
+        return list(self._files_in_progress)
+
+    def _converted_error(self, exc, lexer):
+        """
+        Return the MOFCompileError that represents an exception that was
+        raised while processing the parsed MOF (invalid values for CIM
+        objects, errors returned by the CIM repository), positioned at the
+        current position of the lexer.
+        """
+        token = None
+        mof = getattr(self.parser, 'mof', None)
+        if isinstance(mof, str) and mof:
+            token = lex.LexToken()
+            token.type = 'error'
+            token.value = ''
+            token.lineno = lexer.lineno
+            token.lexpos = max(min(lexer.lexpos, len(mof)) - 1, 0)
+            token.lexer = lexer
+        if isinstance(exc, CIMError):
+            return MOFRepositoryError(
+                msg="Cannot compile MOF because the CIM repository returned "
+                    "an error",
+                parser_token=token, cim_error=exc)
+        if isinstance(exc, Error):
+            return MOFRepositoryError(
+                msg=_format("Cannot compile MOF because of an error when "
+                            "accessing the CIM repository: {0}", exc),
+                parser_token=token, cim_error=exc)
+        return MOFParseError(
+            msg=_format("Invalid value in MOF: {0}", exc),
+            parser_token=token)
+
     def compile_embedded_value(self, mof, ns, filename=None):
         """
         Compile a string of MOF statements that must represent one or
@@ -2951,6 +2997,10 @@ class MOFCompiler:
             # Generate the error message into log and reraise error
             self.parser.log(pe.get_err_msg())
             raise
+        except (CIMError, ModelError, ValueError, TypeError) as exc:
+            pe = self._converted_error(exc, lexer)
+            self.parser.log(pe.get_err_msg())
+            raise pe
         finally:
             # Force the embedded_iobjects variable to be reset telling the
             # compiler not to insert new objects into this variable
@@ -3032,6 +3082,10 @@ class MOFCompiler:
             # Generate the error message into log and reraise error
             self.parser.log(pe.get_err_msg())
             raise
+        except (CIMError, ModelError, ValueError, TypeError) as exc:
+            pe = self._converted_error(exc, lexer)
+            self.parser.log(pe.get_err_msg())
+            raise pe
 
     def compile_file(self, filename, ns):
         """
